@@ -83,7 +83,7 @@ Section Mut.
   Lemma redraw_valid : forall k cands dist srt nm lits cs j r,
     wf_p (Choices k cands dist srt nm lits) = true ->
     valid_p (Choices k cands dist srt nm lits) (PChoices cs) = true ->
-    valid_p (Choices k cands dist srt nm lits) (PChoices (fst (redraw_sub R G (length cands) cands dist srt cs j r))) = true.
+    valid_p (Choices k cands dist srt nm lits) (PChoices (fst (fst (redraw_sub R G (length cands) cands dist srt cs j r)))) = true.
   Proof.
     intros k cands dist srt nm lits cs j r Hwf Hv.
     apply valid_p_choices_iff in Hv. destruct Hv as (Hl & Hc & Hs).
@@ -197,18 +197,21 @@ Section Mut.
                 mut_space R G wh sc false sub m r = Done sub' r0 -> valid sc sub' = true).
       { intros c sc sub m0 sub' r0 Ec Hs Hm. eapply nth_error_Forall in IH; eauto. eapply IH; eauto.
         apply wf_p_choices in Hwf. destruct Hwf as (_ & _ & _ & Hwc). rewrite forallb_forall in Hwc. apply Hwc. eapply nth_error_In; eauto. }
-      assert (Hwhole : forall x0 r0, (let (x1, r1) := rand_p R G (Choices k cands dist srt nm lits) r in Done x1 r1) = Done x0 r0 ->
+      assert (Hwhole : forall x0 r0, (let (x1, r1) := rand_p R G (Choices k cands dist srt nm lits) r in
+                                      if pcust x1 then Fail ENotImpl else Done x1 r1) = Done x0 r0 ->
                 valid_p (Choices k cands dist srt nm lits) x0 = true).
       { intros x0 r0 Hw. pose proof (rand_p_valid (Choices k cands dist srt nm lits) r Hwf) as Hr.
-        destruct (rand_p R G (Choices k cands dist srt nm lits) r). inv Hw. auto. }
+        destruct (rand_p R G (Choices k cands dist srt nm lits) r) as [x1 r1]. destruct (pcust x1); inv Hw. auto. }
       change (mut_point R G wh (Choices k cands dist srt nm lits) fold (PChoices cs) m r) with
         (let n := length cands in
-         let whole := fun (_ : unit) => let (x1, r1) := rand_p R G (Choices k cands dist srt nm lits) r in @Done R pdna x1 r1 in
+         let whole := fun (_ : unit) => let (x1, r1) := rand_p R G (Choices k cands dist srt nm lits) r in
+                                        if pcust x1 then @Fail R pdna ENotImpl else Done x1 r1 in
          let into := sub_into R (fun s sub m' => mut_space R G wh s false sub m' r) cands cs in
          if k =? 1 then here R (w_choice wh) m whole (fun m' => mmap R PChoices (into O m'))
          else here R (w_choice wh && negb fold) m whole (fun m0 =>
                 mmap R PChoices (subs_walk R (w_choice wh)
-                   (fun j => let (cs', r1) := redraw_sub R G n cands dist srt cs j r in Done cs' r1) into (seq 0 k) m0))) in H.
+                   (fun j => match redraw_sub R G n cands dist srt cs j r with
+                             | (cs', r1, false) => Done cs' r1 | (_, _, true) => Fail ENotImpl end) into (seq 0 k) m0))) in H.
       cbv zeta in H. destruct (k =? 1).
       + apply here_inv in H. destruct H as [H|[m' H]]. eapply Hwhole; eauto.
         destruct (sub_into _ _ cands cs 0 m') as [|cs' r1|] eqn:E; simpl in H; inv H.
@@ -217,7 +220,7 @@ Section Mut.
         destruct (subs_walk _ _ _ _ _ m') as [|cs' r1|] eqn:E; simpl in H; inv H.
         eapply (subs_walk_inv (fun cs' => valid_p (Choices k cands dist srt nm lits) (PChoices cs') = true)) in E; eauto.
         * intros j x0 r0 _ Hr. pose proof (redraw_valid k cands dist srt nm lits cs j r Hwf Hv) as Hrv.
-          destruct (redraw_sub R G (length cands) cands dist srt cs j r). inv Hr. auto.
+          destruct (redraw_sub R G (length cands) cands dist srt cs j r) as [[cs1 r1] [|]]; inv Hr. auto.
         * intros j m0 x0 r0 _ Hi. eapply sub_into_valid; [exact Hrec|exact Hv|exact Hi].
     - intros lo hi nm Hwf fold x m r x' r' Hv H. destruct x; try discriminate.
       simpl in H. apply here_inv in H. destruct H as [H|[m' H]]; [|discriminate].
